@@ -30,6 +30,7 @@ EXTENDS Bih, TLC, Json, IOUtils
 CONSTANTS Coords,     \* lattice coordinates in half units (even numbers)
           Dims,       \* number of varying axes (1 or 2); the others are [0, 2] with points at 1
           MaxBoxes,
+          WithThin,   \* include zero-thickness intervals a = a
           WithInf,    \* include the infinite box
           WithNull,   \* include the null box
           WithSemi,   \* include semi-infinite boxes (generation only)
@@ -40,7 +41,7 @@ VARIABLES phase,   \* "pick" -> "build" -> "ready" -> "walk" -> "done"
           boxes, bs, tree, pt, acc, ts, steps
 vars == <<phase, boxes, bs, tree, pt, acc, ts, steps>>
 
-Intervals == {<<a, b>> \in Coords \X Coords : a <= b}
+Intervals == {<<a, b>> \in Coords \X Coords : a < b \/ (WithThin /\ a = b)}
 Pad == <<0, 2>>
 BoxOf(f) == [lo |-> [a \in Axes |-> IF a <= Dims THEN f[a][1] ELSE Pad[1]],
              hi |-> [a \in Axes |-> IF a <= Dims THEN f[a][2] ELSE Pad[2]]]
